@@ -13,13 +13,14 @@ import (
 
 // Delivery is one CommitBlock call as seen by the application.
 type Delivery struct {
-	Epoch   int      // incarnation of the node that delivered it
-	Step    int      // scheduler step during which it was delivered
-	Block   hg.Block // deep copy of the argument
-	Resp    proxy.CommitResponse
-	Digest  string // canonical digest of the body completed with the response
-	Shadow  bool
-	BodyRaw []byte // marshalled body as delivered (before the response was filled in)
+	Epoch    int      // incarnation of the node that delivered it
+	Step     int      // scheduler step during which it was delivered
+	Block    hg.Block // deep copy of the argument
+	Resp     proxy.CommitResponse
+	Digest   string // canonical digest of the body completed with the response
+	Shadow   bool
+	BodyRaw  []byte // marshalled body as delivered (before the response was filled in)
+	AppError bool   // the application applied the block but the call returned an error: babble never saw the response
 }
 
 // SimApp is the simulator's deterministic application. It implements
@@ -126,10 +127,18 @@ func (a *SimApp) CommitBlock(block hg.Block) (proxy.CommitResponse, error) {
 		Shadow:  a.shadow,
 		BodyRaw: bodyRaw,
 	}
+	// fault: the application did its work but the call reports an error (a
+	// handler that fails after applying the block, a timeout on the way back)
+	fail := !a.shadow && a.c.cfg.PAppError > 0 && len(cp.InternalTransactions()) == 0 && a.owner != nil && !a.owner.constructing && a.c.inner.Bool(a.c.cfg.PAppError)
+	d.AppError = fail
 	a.log = append(a.log, d)
 	if !a.shadow {
 		a.c.onDeliver(a.owner, d)
 		a.maybeSubmitFromCallback(&cp)
+	}
+	if fail {
+		a.c.stats.fault("application-commit-error")
+		return proxy.CommitResponse{}, fmt.Errorf("application error while committing block %d", cp.Index())
 	}
 	return resp, nil
 }
@@ -232,3 +241,17 @@ func (a *SimApp) maybeSubmitFromCallback(b *hg.Block) {
 	n.acceptedTxs = append(n.acceptedTxs, tx)
 	c.stats.probe("submit-from-commit-callback")
 }
+
+// simHandler lets a SimApp sit behind babble's real in-process proxy
+// (proxy/inmem.InmemProxy), as an embedding application would.
+type simHandler struct{ a *SimApp }
+
+func (h *simHandler) CommitHandler(b hg.Block) (proxy.CommitResponse, error) {
+	return h.a.CommitBlock(b)
+}
+func (h *simHandler) SnapshotHandler(i int) ([]byte, error) { return h.a.GetSnapshot(i) }
+func (h *simHandler) RestoreHandler(snapshot []byte) ([]byte, error) {
+	err := h.a.Restore(snapshot)
+	return h.a.state, err
+}
+func (h *simHandler) StateChangeHandler(s state.State) error { return h.a.OnStateChanged(s) }
